@@ -144,6 +144,10 @@ fn gen_rules(r: &mut Rng, host: &str, path_tok: &str) -> Vec<String> {
         if r.chance(1, 6) {
             opts.push(format!("domain={}", r.ps(gen::HOSTS)));
         }
+        if r.chance(1, 8) {
+            // still a removeparam rule: it rewrites, it does not block
+            opts.push("important".into());
+        }
         if r.chance(1, 2) {
             r.shuffle(&mut opts);
         }
@@ -231,6 +235,14 @@ pub fn run(ctx: &mut Ctx) {
                 let h = fnv(&format!("{:?}|{}|{}|{}", rules, url, source, ty));
                 let detail = json!({"rules": rules, "url": url, "source": source, "type": ty, "engine": a.to_json(), "oracle": verdict_json(&v),
                     "matching_removeparam_rules": v.removeparam_hits});
+                // the multi-engine entry point: the rewrite does not depend on what an earlier
+                // engine decided (an important block in this engine still suppresses it)
+                for (prev, force) in [(true, false), (true, true), (false, true)] {
+                    let s = e.check_network_request_subset(&rq, prev, force);
+                    if s.rewritten_url != a.rewritten {
+                        sigs.push("C14:rewrite-depends-on-subset-flags".into());
+                    }
+                }
                 asked.push((url.clone(), source.clone(), ty, a.rewritten.clone(), out.len()));
                 out.push((sigs, nt, h, detail, a.rewritten.is_some()));
             }
